@@ -83,6 +83,9 @@ type VerifSched struct {
 	saved        [13]any
 	boundaryNext bool
 	BodyPanic    any // panic value that escaped the session body, if any
+	// LocksOnly: scheduling points only at lock operations, the header write and statement boundaries (for
+	// statements with thousands of row operations; the monitors still see every access and write)
+	LocksOnly bool
 }
 
 // VerifNewSched creates a scheduler; choose is the explorer's choice oracle.
@@ -228,12 +231,14 @@ func (s *VerifSched) attach() {
 			}
 		case "append", "incrementLastKey", "incrLSN", "setPageTableRoot":
 			s.access(t, f, kind, true)
-			s.yield(t, f, kind)
+			if !s.LocksOnly {
+				s.yield(t, f, kind)
+			}
 		case "setCache":
 			s.access(t, f, kind, false)
 			// no yield between the page writes of one flush: their number and
 			// order follow Go map iteration order, which the explorer does not own
-			if s.writer[f] != t {
+			if s.writer[f] != t && !s.LocksOnly {
 				s.yield(t, f, kind)
 			}
 		}
@@ -279,7 +284,9 @@ func (s *VerifSched) attach() {
 		}
 		if t := s.lookup(); t != nil {
 			s.record(t, "walWrite")
-			s.yield(t, nil, "walWrite")
+			if !s.LocksOnly {
+				s.yield(t, nil, "walWrite")
+			}
 		}
 	}
 	vhWalSync = func(w *wal) {
@@ -288,7 +295,9 @@ func (s *VerifSched) attach() {
 		}
 		if t := s.lookup(); t != nil {
 			s.record(t, "walSync")
-			s.yield(t, nil, "walSync")
+			if !s.LocksOnly {
+				s.yield(t, nil, "walSync")
+			}
 		}
 	}
 	vhWalFlushEnd = func(w *wal, n int) {
